@@ -845,3 +845,24 @@ m('N4-accessor-codify-folds-backwards', 'C04', 'N4', 'accessor.PyTreeAccessor/co
         for entry in reversed(self):
             string = entry.codify(string)
         return string""")
+m('F12-transform-callbacks-swapped', 'C08', 'F12', 'treespec_transform/thin', 'optree/ops.py',
+  """    return treespec.transform(f_node, f_leaf)""",
+  """    return treespec.transform(f_leaf, f_node)""")
+m('F12-is-suffix-calls-is-prefix', 'C07', 'F12', 'treespec_is_suffix/thin', 'optree/ops.py',
+  """    return treespec.is_suffix(other_treespec, strict=strict)""",
+  """    return treespec.is_prefix(other_treespec, strict=strict)""")
+m('F13-repeat-counts-prefix-leaves', 'C09', 'F13', 'tree_broadcast_prefix/replication', 'optree/ops.py',
+  """        subtreespec = tree_structure(
+            subtree,
+            is_leaf=is_leaf,  # type: ignore[arg-type]
+            none_is_leaf=none_is_leaf,
+            namespace=namespace,
+        )
+        return subtreespec.unflatten(itertools.repeat(x, subtreespec.num_leaves))""",
+  """        subtreespec = tree_structure(
+            subtree,
+            is_leaf=is_leaf,  # type: ignore[arg-type]
+            none_is_leaf=none_is_leaf,
+            namespace=namespace,
+        )
+        return subtreespec.unflatten(itertools.repeat(x, subtreespec.num_nodes))""")
